@@ -410,6 +410,7 @@ func (s *Schema) UnmarshalJSON(data []byte) error {
 		Dependencies  map[string]json.RawMessage `json:"dependencies,omitempty"`
 		Items         json.RawMessage            `json:"items,omitempty"`
 		Const         json.RawMessage            `json:"const,omitempty"`
+		Examples      json.RawMessage            `json:"examples,omitempty"`
 		MinLength     *integer                   `json:"minLength,omitempty"`
 		MaxLength     *integer                   `json:"maxLength,omitempty"`
 		MinItems      *integer                   `json:"minItems,omitempty"`
@@ -500,6 +501,18 @@ func (s *Schema) UnmarshalJSON(data []byte) error {
 	// unmarshal: the *any is set to nil, not a pointer to nil.
 	if err := unmarshalAnyPtr(&s.Const, ms.Const); err != nil {
 		return err
+	}
+
+	// An example may be any JSON value, including a number outside the range of
+	// float64: keep the numbers of such a list as json.Number.
+	if len(ms.Examples) > 0 {
+		if err := json.Unmarshal(ms.Examples, &s.Examples); err != nil {
+			dec := json.NewDecoder(bytes.NewReader(ms.Examples))
+			dec.UseNumber()
+			if err := dec.Decode(&s.Examples); err != nil {
+				return err
+			}
+		}
 	}
 
 	set := func(dst **int, src *integer) {
